@@ -150,6 +150,20 @@ pub struct Server {
     pub handler: BlockHandler<Ep>,
     pub budget: usize,
     pub app_calls: Vec<AppCall>,
+    /// Rolling fingerprint of every datagram in and out: stands in for the cache snapshot as a search key when the
+    /// hooks are unavailable (no state merging then, only depth-bounded enumeration).
+    pub trace: u64,
+}
+
+/// Are the cfg(coap_lite_verif) hooks of the crate available to this build?
+pub const HOOKS: bool = cfg!(not(feature = "nohooks"));
+
+fn mix(h: u64, bytes: &[u8]) -> u64 {
+    let mut h = h ^ 0x9E37_79B9_7F4A_7C15;
+    for b in bytes {
+        h = (h ^ *b as u64).wrapping_mul(0x0000_0100_0000_01B3);
+    }
+    h.rotate_left(17) ^ bytes.len() as u64
 }
 
 impl Server {
@@ -158,18 +172,22 @@ impl Server {
             handler: BlockHandler::new(BlockHandlerConfig { max_total_message_size: budget, cache_expiry_duration: expiry }),
             budget,
             app_calls: Vec::new(),
+            trace: 0,
         }
     }
 
     /// One datagram in, at most one datagram out, exactly as a server built on the crate would do it.
     pub fn exchange(&mut self, ep: u32, req_bytes: &[u8], app: &dyn Fn(&AppCall) -> AppReply) -> Exchange {
-        match self.begin(ep, req_bytes) {
+        self.trace = mix(mix(self.trace, &ep.to_be_bytes()), req_bytes);
+        let x = match self.begin(ep, req_bytes) {
             Begun::Done(x) => x,
             Begun::NeedsApp(p) => {
                 let reply = app(&p.call);
                 self.finish(*p, reply)
             }
-        }
+        };
+        self.trace = mix(self.trace, x.reply.as_deref().unwrap_or(&[0xEE]));
+        x
     }
 
     /// First half of an exchange: parse + intercept_request. Either the handler answered (or failed) itself, or
@@ -261,7 +279,14 @@ impl Server {
         x
     }
 
+    /// Without the hooks (feature `nohooks`) nothing of the cache is visible.
+    #[cfg(feature = "nohooks")]
+    pub fn snapshot(&self) -> Vec<(u8, Vec<String>, Option<u32>, Option<(u16, bool, u8)>, Option<Vec<u8>>, Option<Vec<u8>>)> {
+        Vec::new()
+    }
+
     /// Canonical snapshot of the handler's cache (hook), sorted by key.
+    #[cfg(not(feature = "nohooks"))]
     pub fn snapshot(&self) -> Vec<(u8, Vec<String>, Option<u32>, Option<(u16, bool, u8)>, Option<Vec<u8>>, Option<Vec<u8>>)> {
         let mut v: Vec<_> = self
             .handler
